@@ -151,7 +151,7 @@ fn main() {
         println!("replay: api={} class={} input={}", doc["api"], doc["class"], doc["input"]);
         println!("(re-running the sweep; the violation reappears below if it persists)");
     }
-    rep.rule = "every Result-returning public API called under catch_unwind over: 12 constructors x {names, help, constant/variable label names} from the C09 string pool (len<=2) and label lists of length 0..3 over {a,b,le,'',9}; vector access/removal with label lists of length 0..4 and maps of 0..3 keys (right, wrong, missing, extra) on vectors of arity 0..3; bucket lists of length 0..3 over a 9-class f64 pool; linear_buckets/exponential_buckets over pool x pool x {0,1,3,64}; register/unregister histories of length <=3 over a collector pool incl. zero- and duplicate-descriptor collectors; Registry::new_custom over string pool; both encoders (encode, encode_utf8, encode_to_string) over the C04 family generator extended with UNTYPED, every type/payload mismatch, absent optionals, unknown enum value, empty name, empty metric list, and writers failing after k bytes. distinct = distinct (api, input class, ok/err) outcomes".into();
+    rep.rule = "every Result-returning public API called under catch_unwind over: 12 constructors x {names, help, constant/variable label names} from the C09 string pool (len<=2) and label lists of length 0..3 over {a,b,le,'',9}; vector access/removal with label lists of length 0..4 and maps of 0..3 keys (right, wrong, missing, extra) on vectors of arity 0..3; bucket lists of length 0..3 over a 9-class f64 pool; linear_buckets/exponential_buckets over pool x pool x {0,1,3,64}; register/unregister histories of length <=3 over a collector pool incl. zero- and duplicate-descriptor collectors; Registry::new_custom over string pool; both encoders (encode, encode_utf8, encode_to_string) over the C04 family generator extended with UNTYPED, every type/payload mismatch, absent optionals, unknown enum value, empty name, empty metric list, writers failing after k bytes, and a size sweep (multi-byte characters and an escape at every byte offset up to 8300, thorough 33000, of help and label value). distinct = distinct (api, input class, ok/err) outcomes".into();
     rep.bounds = json!({"string_len": 2, "label_list_len": 3, "bucket_list_len": 3, "registry_history": 3});
     let s2 = strings(2);
     let mut sw = Sweep { rep: &mut rep };
@@ -383,6 +383,21 @@ fn main() {
         sw.call("TextEncoder::encode_utf8", class, Want::Any, inp.clone(), || res(text.encode_utf8(one, &mut String::new())));
         sw.call("TextEncoder::encode_to_string", class, Want::Any, inp.clone(), || res(text.encode_to_string(one)));
         sw.call("ProtobufEncoder::encode", class, Want::Any, inp.clone(), || res(pb.encode(one, &mut Vec::new())));
+    }
+    // size sweep: a multi-byte character and an escape at every byte offset up to 8300 (thorough 33000) of the output
+    {
+        let top = if thorough { 33000 } else { 8300 };
+        for k in 0..=top {
+            let tok = format!("{}\u{e9}\\\n\u{1F600}", "h".repeat(k));
+            let mut m = RMetric { gauge: Some(1.0), ..Default::default() };
+            m.labels = vec![("l".into(), tok.clone())];
+            let f = RFamily { name: "m".into(), help: tok, typ: RType::Gauge, metrics: vec![m] }.to_proto();
+            let one = std::slice::from_ref(&f);
+            let inp = json!({"token_prefix_bytes": k});
+            sw.call("TextEncoder::encode", "size-sweep", Want::Ok, inp.clone(), || res(text.encode(one, &mut Vec::new())));
+            sw.call("TextEncoder::encode_utf8", "size-sweep", Want::Ok, inp.clone(), || res(text.encode_utf8(one, &mut String::new())));
+            sw.call("ProtobufEncoder::encode", "size-sweep", Want::Ok, inp.clone(), || res(pb.encode(one, &mut Vec::new())));
+        }
     }
     // refused families
     let good = RFamily { name: "m".into(), help: "h".into(), typ: RType::Counter, metrics: vec![RMetric { counter: Some(1.0), ..Default::default() }] };
